@@ -5,8 +5,10 @@
 //! the genuine generic code.  Case language: see coq/theories/Run/RunC02.v.
 //!   (2 1 term probes writes)   dynamic interpreter
 //!   (2 2 term probes writes)   static (non-erased) composition, for the term skeletons of c02/fixed.rs
+//!   (2 3 term shape' probes writes)   reshape the leaf through source_ref_mut(), then observe (c02/mutate.rs)
 mod build;
 mod fixed;
+mod mutate;
 
 use crate::guarded;
 use crate::sx::*;
@@ -20,8 +22,21 @@ pub fn run(args: &[Sx]) -> Sx {
     let execute = match op {
         Some(1) => execute as fn(&Sx, &[Vec<usize>], &[(Vec<usize>, i64)], usize) -> Sx,
         Some(2) => fixed::execute,
+        Some(3) => execute,
         _ => return bad_case(),
     };
+    if op == Some(3) && args.len() == 5 {
+        // build, reshape the leaf through source_ref_mut(), observe the same view object
+        let (Some(shape), Some((probes, writes))) = (args[2].pairs_usize(), probes_writes(&args[3], &args[4])) else {
+            return bad_case();
+        };
+        let r0 = mutate::execute(&args[1], &shape, &probes, &writes, 0);
+        let r1 = mutate::execute(&args[1], &shape, &probes, &writes, 1);
+        if r0 != r1 {
+            return inconsistent(200);
+        }
+        return r0;
+    }
     match op {
         Some(1) | Some(2) if args.len() == 4 => {
             let Some(probes) = args[2]
@@ -53,6 +68,22 @@ pub fn run(args: &[Sx]) -> Sx {
         }
         _ => bad_case(),
     }
+}
+
+fn probes_writes(p: &Sx, w: &Sx) -> Option<(Vec<Vec<usize>>, Vec<(Vec<usize>, i64)>)> {
+    let probes = p.list()?.iter().map(|x| x.usizes()).collect::<Option<Vec<_>>>()?;
+    let writes = w
+        .list()?
+        .iter()
+        .map(|w| {
+            let w = w.list()?;
+            if w.len() != 2 {
+                return None;
+            }
+            Some((w[0].usizes()?, w[1].i64()?))
+        })
+        .collect::<Option<Vec<_>>>()?;
+    Some((probes, writes))
 }
 
 fn execute(term: &Sx, probes: &[Vec<usize>], writes: &[(Vec<usize>, i64)], form: usize) -> Sx {
@@ -286,6 +317,33 @@ pub(crate) fn observe<S: TensorMut<E, D>, const D: usize>(
             if Some(um) != addr {
                 return Err(inconsistent(217));
             }
+        }
+    }
+    // ---- mutable iteration (TensorReferenceMutIterator goes through get_reference_unchecked_mut
+    //      for every element) must hand out the very elements shared iteration visits, in order
+    {
+        let shared: Vec<*const E> = TensorView::from(&view).iter_reference().map(|x| x as *const E).collect();
+        let mutable: Vec<*const E> =
+            TensorView::from(&mut view).iter_reference_mut().map(|x| x as *mut E as *const E).collect();
+        if shared != mutable {
+            return Err(inconsistent(225));
+        }
+        let indexed: Vec<([usize; D], *const E)> = TensorView::from(&mut view)
+            .iter_reference_mut()
+            .with_index()
+            .map(|(i, x)| (i, x as *mut E as *const E))
+            .collect();
+        for (i, a) in &indexed {
+            if view.get_reference(*i).map(|x| x as *const E) != Some(*a) {
+                return Err(inconsistent(226));
+            }
+        }
+        // map_mut with the identity writes every element back onto itself
+        let before: Vec<E> = TensorView::from(&view).iter().collect();
+        TensorView::from(&mut view).map_mut(|x| x);
+        let after: Vec<E> = TensorView::from(&view).iter().collect();
+        if before != after {
+            return Err(inconsistent(227));
         }
     }
     // ---- writes
